@@ -117,7 +117,7 @@ def run(ck):
                                  "negative row indices are drawn below %r, but the rows are taken from a tensor with %r rows" % (ri[0].args[0], bound))
                     # ---------------- R3 count of negative batches = num_batches
                     cnt = count_of_range(neg_r)
-                    ck.check(cnt == NB if cnt is not None else None, "C07.R3", inst + ":num_batches negative batches", ssite,
+                    ck.check(cnt == NB if cnt is not None else None, "C07.R6", inst + ":num_batches negative batches", ssite,
                              "negative batch starts run over %s: not exactly num_batches batches" % (neg_r,))
     # ------------------------------------------------------------------ R3/R4/R5 fit
     fit = prog.method("NeuralStateBase", "fit")
@@ -159,11 +159,11 @@ def run(ck):
                         nbt = num_term(argp(env, 3))  # _shuffle_data(self, pos, neg, num_batches, train, bases, z) by position
                         want = T.app("ceil", T.sym("N") * T.inv(T.sym("pb")))
                         if nbt == want:
-                            ck.ok("C07.R3", inst + ":num_batches = ceil(N / pos_batch_size)", fsite)
+                            ck.ok("C07.R6", inst + ":num_batches = ceil(N / pos_batch_size)", fsite)
                         elif nbt is not None and (nbt == T.app("floordiv", T.sym("N"), T.sym("pb")) or nbt == T.app("trunc", T.sym("N") * T.inv(T.sym("pb"))) or nbt == T.app("floor", T.sym("N") * T.inv(T.sym("pb")))):
-                            ck.violation("C07.R3", inst + ":num_batches = ceil(N / pos_batch_size)", fsite, "num_batches is floor(N / pos_batch_size): the last, smaller batch is silently dropped by zip")
+                            ck.violation("C07.R6", inst + ":num_batches = ceil(N / pos_batch_size)", fsite, "num_batches is floor(N / pos_batch_size): the last, smaller batch is silently dropped by zip")
                         else:
-                            ck.check(None if nbt is None or nbt.syms() == want.syms() else False, "C07.R3", inst + ":num_batches = ceil(N / pos_batch_size)", fsite,
+                            ck.check(None if nbt is None or nbt.syms() == want.syms() else False, "C07.R6", inst + ":num_batches = ceil(N / pos_batch_size)", fsite,
                                      "num_batches is %r; expected ceil(N / pos_batch_size)" % (nbt,))
                         ts = argp(env, 4)
                         ck.check(isinstance(ts, VTens) and ts.term == T.sym("data") and ts.shape == ("N", "nv"), "C07.R3", inst + ":whole data set shuffled", fsite, "the tensor handed to the shuffler is not the training data")
@@ -178,7 +178,8 @@ def run(ck):
                             ck.check(isinstance(ib, VTens) and ib.term == T.sym("input_bases"), "C07.R1", inst + ":bases forwarded", fsite, "the bases handed to the shuffler are not the caller's input_bases")
     ck.require_min("C07.R1", 6)
     ck.require_min("C07.R2", 7)
-    ck.require_min("C07.R3", 10)
+    ck.require_min("C07.R3", 6)
+    ck.require_min("C07.R6", 5)
     ck.require_min("C07.R4", 6)
     ck.require_min("C07.R5", 9)
     ck.assumptions += [
